@@ -29,7 +29,11 @@ ProvSize(S, o) ==
             IN IF av < allowed THEN av ELSE allowed
 (* possible outcomes of BatchProcessing._provision_resources: [ok, ms] *)
 ProvOptions(S, o) ==
-    IF cfg.alg # "batch" THEN {[ok |-> TRUE, ms |-> {}]}
+    IF cfg.alg = "adv" /\ cfg.advProv > 0 /\ AtPid(o) \in DOMAIN S.procs /\ S.procs[AtPid(o)].left = 0
+       /\ o \notin DOMAIN S.cl.idle /\ S.cl.avail # {}
+    THEN (* a user algorithm that reserves machines itself and leaves the release to the scheduler *)
+         {[ok |-> TRUE, ms |-> ms] : ms \in kSubset(MinI(cfg.advProv, Cardinality(S.cl.avail)), S.cl.avail)}
+    ELSE IF cfg.alg # "batch" THEN {[ok |-> TRUE, ms |-> {}]}
     ELSE IF o \in DOMAIN S.cl.idle THEN {[ok |-> TRUE, ms |-> {}]}
     ELSE IF S.cl.numProv < cfg.parts
     THEN LET n == ProvSize(S, o)
@@ -96,8 +100,43 @@ Proposals(S, o, rem, pv, loc) ==
        ELSE IF cfg.alg = "greedy" THEN GreedyProposals(S, o, R, sched)
        ELSE IF loc.left < cfg.advRounds THEN AdvProposals(S, o, rem, sched)
        ELSE (* the harness adversary's cooperative fallback: ready tasks in plan order on free machines *)
-            LET n == MinI(Cardinality(R), Cardinality(S.cl.avail))
-            IN {f \in UNION {Injection(Rs, S.cl.avail) : Rs \in kSubset(n, R)} : TRUE}
+            LET free == S.cl.avail \cup IdleOf(S, o)
+                n == MinI(Cardinality(R), Cardinality(free))
+            IN {f \in UNION {Injection(Rs, free) : Rs \in kSubset(n, R)} : TRUE}
+
+(* ---- the same contracts as predicates on one given proposal (trace        *)
+(* validation: no enumeration of the proposal sets, which grow factorially  *)
+(* with the number of machines)                                             *)
+IsInjectiveOn(f, D) == \A a, b \in D : a # b => f[a] # f[b]
+HandOutValid(prop, R, temp, sched) ==
+    LET R2 == R \ DOMAIN sched
+        n == MaxI(0, MinI(Cardinality(R2), Cardinality(temp) - Cardinality(DOMAIN sched)))
+        new == DOMAIN prop \ DOMAIN sched
+    IN /\ DOMAIN sched \subseteq DOMAIN prop /\ \A k \in DOMAIN sched : prop[k] = sched[k]
+       /\ new = LowestK(R2, n)
+       /\ \A k \in new : prop[k] \in temp
+       /\ IsInjectiveOn(prop, new)
+RECURSIVE GreedyValidFrom(_, _, _, _, _, _)
+GreedyValidFrom(S, o, R, seq, temp, prop) ==
+    IF seq = <<>> THEN TRUE
+    ELSE LET k == seq[1]
+             rest == SubSeq(seq, 2, Len(seq))
+             m == PlannedM(S, o, k)
+         IN IF k \notin R THEN GreedyValidFrom(S, o, R, rest, temp, prop)
+            ELSE IF m \in S.cl.occ \cup S.cl.ingest \/ m \notin temp
+            THEN IF temp = {} THEN k \notin DOMAIN prop /\ GreedyValidFrom(S, o, R, rest, temp, prop)
+                 ELSE k \in DOMAIN prop /\ prop[k] \in temp
+                      /\ GreedyValidFrom(S, o, R, rest, temp \ {prop[k]}, prop)
+            ELSE k \in DOMAIN prop /\ prop[k] = m /\ GreedyValidFrom(S, o, R, rest, temp \ {m}, prop)
+ProposalValid(S, o, rem, pv, loc, prop) ==
+    LET R == Ready(S, o, rem)
+        sched == loc.sched
+    IN IF cfg.alg = "batch" THEN (IF pv.ok THEN HandOutValid(prop, R, IdleOf(S, o), sched) ELSE prop = sched)
+       ELSE IF cfg.alg = "queue" THEN HandOutValid(prop, R, S.cl.avail, sched)
+       ELSE IF cfg.alg = "plan" THEN prop \in PlanProposals(S, o, R, sched)
+       ELSE IF cfg.alg = "greedy"
+       THEN DOMAIN prop \subseteq R \cup DOMAIN sched /\ GreedyValidFrom(S, o, R, OCfg(o).torder, S.cl.avail, prop)
+       ELSE TRUE
 
 (* ---- _process_current_schedule ----------------------------------------- *)
 Busy(S, m) == m \in S.cl.occ \cup S.cl.ingest
